@@ -51,7 +51,7 @@ def points(draw, labs):
 def case_st(draw):
     mode = draw(st.sampled_from(["axis", "axis", "axis", "like", "dataset"]))
     nd = draw(st.integers(1, 4 if mode != "dataset" else 3))
-    dims = list(draw(st.permutations(gen.NAMES)))[:nd]
+    dims = list(draw(st.permutations(draw(gen.names_pool()))))[:nd]
     ax = draw(st.integers(0, nd - 1))
     labels = []
     for i in range(nd):
